@@ -7,6 +7,7 @@ identity, empty_body, location argument).  Fail-closed: an unexpected shape appe
 default so that the file still type-checks.
 """
 import ast
+import os
 
 from harness.common import facts as F
 
@@ -216,6 +217,44 @@ def raiser_formats(src, problems):
             out[key] = cs[0]
         except Exception as e:
             problems.append('%s:%s message format unrecognised: %r' % (rel, qual, e))
+    # append-slash Not Found view: the default redirect class (default value of the redirect_class parameter)
+    out['append_slash_class'] = 'HTTPTemporaryRedirect'
+    try:
+        fn = F.Module(src, 'pyramid/view.py').find('AppendSlashNotFoundViewFactory.__init__')
+        names = [a.arg for a in fn.args.args]
+        d = fn.args.defaults[len(fn.args.defaults) - (len(names) - names.index('redirect_class'))]
+        if not isinstance(d, ast.Name):
+            raise ValueError('default of redirect_class is not a name')
+        out['append_slash_class'] = d.id
+    except Exception as e:
+        problems.append('pyramid/view.py:AppendSlashNotFoundViewFactory.__init__ redirect_class default unrecognised: %r' % (e,))
+    # CSRF origin check: 'Origin checking failed - ' + reason, reason = f'{origin} does not match any trusted origins.'
+    out['csrf_origin_prefix'] = 'Origin checking failed - '
+    out['csrf_origin_suffix'] = ' does not match any trusted origins.'
+    out['csrf_origin_explanation'] = ''
+    try:
+        fn = F.Module(src, 'pyramid/csrf.py').find('check_csrf_origin')
+        pre = [n for n in ast.walk(fn) if isinstance(n, ast.BinOp) and isinstance(n.op, ast.Add)
+               and isinstance(n.left, ast.Constant) and isinstance(n.left.value, str)
+               and isinstance(n.right, ast.Name) and n.right.id == 'reason']
+        js = [n for n in ast.walk(fn) if isinstance(n, ast.JoinedStr)]
+        if len(pre) != 1 or len(js) != 1:
+            raise ValueError('prefix / f-string')
+        v = js[0].values
+        if not (len(v) == 2 and isinstance(v[0], ast.FormattedValue) and isinstance(v[0].value, ast.Name)
+                and v[0].value.id == 'origin' and v[0].conversion == -1 and v[0].format_spec is None
+                and isinstance(v[1], ast.Constant) and isinstance(v[1].value, str)):
+            raise ValueError('f-string shape')
+        out['csrf_origin_prefix'], out['csrf_origin_suffix'] = pre[0].left.value, v[1].value
+        cd = F.Module(src, 'pyramid/exceptions.py').find('BadCSRFOrigin')
+        if [ast.dump(b) for b in cd.bases] != ["Name(id='HTTPBadRequest', ctx=Load())"]:
+            raise ValueError('BadCSRFOrigin bases')
+        attrs = _class_attrs(cd)
+        if sorted(attrs) != ['explanation']:
+            raise ValueError('BadCSRFOrigin defines %s' % sorted(attrs))
+        out['csrf_origin_explanation'] = ast.literal_eval(attrs['explanation'])
+    except Exception as e:
+        problems.append('CSRF origin failure message unrecognised: %r' % (e,))
     return out
 
 
@@ -268,11 +307,84 @@ def extract(src, problems):
     L.append('\n(* ---- REGENERATED by harness/c19/translate.py from HTTPException.__init__, _HTTPMove.__init__,\n'
              '   _json_formatter, prepare, __call__ of this source tree *)\n')
     L.append(gen)
+    L.append('\n(* ---- argument expressions of the raise sites outside httpexceptions.py (translate.py, SITES) *)\n')
+    sites, smeta = translate.generate_sites(src, {e['name'] for e in classes}, {e['name'] for e in classes if e['move']},
+                                            problems)
+    L.append(sites)
     summary = {'classes': len(classes),
                'custom_template_classes': sorted(e['name'] for e in classes if e['tmpl_owner'] != 'HTTPException'),
                'empty_body_classes': sorted(e['name'] for e in classes if e['empty']),
                'notfound_detail': 'request.' + nf, 'raiser_formats': fmts,
                'translated': ['HTTPException.__init__', '_HTTPMove.__init__', 'HTTPForbidden.__init__', 'HTTPException._json_formatter',
                               'HTTPException.prepare', 'HTTPException.__call__'],
+               'site_classes': smeta,
                'negotiation': {'offers': meta.get('offers'), 'accept': meta.get('env_get')}}
     return ''.join(L), summary
+
+
+# ------------------------------------------------------------------ every construction site of an HTTP exception
+def _exception_names(src, problems):
+    """names under which an HTTP exception class (or a factory of one) can be called anywhere in the package:
+    the classes of httpexceptions.py, their module-level aliases, exception_response, the subclasses and aliases
+    defined in pyramid/exceptions.py"""
+    names = set()
+    mod = F.Module(src, 'pyramid/httpexceptions.py')
+    for e in class_table(mod.tree, []):
+        names.add(e['name'])
+    for st in mod.tree.body:
+        if isinstance(st, ast.Assign) and isinstance(st.value, ast.Name) and st.value.id in names:
+            names.update(t.id for t in st.targets if isinstance(t, ast.Name))
+    names.add('exception_response')
+    try:
+        ex = F.Module(src, 'pyramid/exceptions.py')
+        changed = True
+        while changed:
+            changed = False
+            for st in ex.tree.body:
+                new = []
+                if isinstance(st, ast.ClassDef) and any(isinstance(b, ast.Name) and b.id in names for b in st.bases):
+                    new = [st.name]
+                elif isinstance(st, ast.Assign) and isinstance(st.value, ast.Name) and st.value.id in names:
+                    new = [t.id for t in st.targets if isinstance(t, ast.Name)]
+                for n in new:
+                    if n not in names:
+                        names.add(n)
+                        changed = True
+    except (OSError, SyntaxError) as e:
+        problems.append('cannot parse pyramid/exceptions.py: %s' % e)
+    return names
+
+
+def raise_sites(src, problems):
+    """-> sorted list of 'rel/path.py:Qual.name' of every function (or '<module>') in src/pyramid that CALLS an HTTP
+    exception class / exception_response / a `redirect_class` attribute (= builds an HTTP exception response)."""
+    names = _exception_names(src, problems)
+    sites = set()
+    root = os.path.join(src, 'pyramid')
+    for d, _, files in sorted(os.walk(root)):
+        for fn in sorted(files):
+            if not fn.endswith('.py'):
+                continue
+            path = os.path.join(d, fn)
+            rel = os.path.relpath(path, src)
+            try:
+                with open(path) as f:
+                    tree = ast.parse(f.read())
+            except (OSError, SyntaxError) as e:
+                problems.append('cannot parse %s: %s' % (rel, e))
+                continue
+
+            def walk(node, qual):
+                for ch in ast.iter_child_nodes(node):
+                    if isinstance(ch, (ast.FunctionDef, ast.AsyncFunctionDef, ast.ClassDef)):
+                        walk(ch, qual + [ch.name])
+                        continue
+                    if isinstance(ch, ast.Call):
+                        f_ = ch.func
+                        hit = (isinstance(f_, ast.Name) and f_.id in names) or \
+                              (isinstance(f_, ast.Attribute) and (f_.attr in names or f_.attr == 'redirect_class'))
+                        if hit:
+                            sites.add('%s:%s' % (rel, '.'.join(qual) or '<module>'))
+                    walk(ch, qual)
+            walk(tree, [])
+    return sorted(sites)
